@@ -55,6 +55,7 @@ type Replay struct {
 	// script is a sequence of answers to the generators\' draws and means
 	// something else once the generators change.
 	Harness string `json:"harness,omitempty"`
+	Flaky   bool   `json:"reproduces_in_some_executions_only,omitempty"`
 }
 
 // Stats is what a batch worker prints.
